@@ -6,7 +6,7 @@ from .. import xengine, gen
 
 QUICK = (['h_bip13_add', 'h_bip22_add', 'h_bip22_addfrom', 'h_bip23_add', 'h_bip31_add', 'h_bip32_add', 'h_complete_bip',
           'h_digraph2_add', 'h_digraph2_addfrom', 'h_graph2_add', 'h_graph2_remove', 'h_graph2_update', 'h_graph2_addfrom',
-          'h_graph3_add', 'h_graph3_remove', 'h_graph3_update', 'h_graph4_update'] +
+          'h_graph3_add', 'h_graph3_remove', 'h_graph3_update', 'h_graph4_update', 'h_graph2_grow_add', 'h_graph3_grow_add'] +
          ['h_graph2_hist2_%d%d' % (a, b) for a in range(3) for b in range(3)])
 THOROUGH = QUICK + ['h_digraph3_add', 'h_graph3_addfrom', 'h_graph4_add', 'h_graph4_remove'] + \
     ['h_graph3_hist2_%d%d' % (a, b) for a in range(3) for b in range(3)] + \
